@@ -73,6 +73,31 @@ def run(ctx):
         n = rnd.randint(6, 12)
         behs.append(scc_trace(gen.rand_digraph(rnd, n, rnd.choice([0.08, 0.12, 0.2, 0.3])), n, family='random<=12',
                               naming=rnd.choice(['int', 'str', 'mixed', 'falsy']), build=rnd.choice(['ctor', 'incr']), shuf=rnd.randrange(1 << 30)))
+    # beyond every small-scope threshold: 18-40 nodes, hubs with large fan-out / fan-in, long chains and cycles
+    for i in range(400 if q else 8000):
+        n = rnd.randint(18, 40)
+        E = set()
+        for _ in range(rnd.randint(1, 3)):                       # hubs
+            h = rnd.randrange(n)
+            for w in rnd.sample(range(n), rnd.randint(17, n - 1)):
+                E.add((h, w) if rnd.random() < 0.7 else (w, h))
+        for _ in range(rnd.randint(0, 3)):                       # cycles / chains through random nodes
+            path = rnd.sample(range(n), rnd.randint(2, min(n, 9)))
+            for a, b in zip(path, path[1:] + path[:1] if rnd.random() < 0.7 else path[1:] + [path[-1]]):
+                E.add((a, b))
+        for _ in range(rnd.randint(0, n)):
+            E.add((rnd.randrange(n), rnd.randrange(n)))
+        behs.append(scc_trace([list(e) for e in sorted(E)], n, family='large with hubs (18-40 nodes)',
+                              naming=rnd.choice(['int', 'str']), build=rnd.choice(['ctor', 'incr']), shuf=rnd.randrange(1 << 30)))
+    # every small core shape with one node padded to a large fan-out (or fan-in): degree thresholds x all shapes
+    cores = list(gen.all_digraphs(3)) + (rnd.sample(g4, 300) if q else g4[:20000:4])
+    for E in cores:
+        n0 = 3 if all(max(e) < 3 for e in E) and len(E) <= 9 and (not E or max(max(e) for e in E) < 3) else 4
+        for h in ([rnd.randrange(n0)] if q else range(n0)):
+            k = rnd.choice([16, 17, 18, 24])
+            pad = [[h, n0 + j] if rnd.random() < 0.85 else [n0 + j, h] for j in range(k)]
+            behs.append(scc_trace([list(e) for e in E] + pad, n0 + k, family='small core + padded fan-out',
+                                  naming=rnd.choice(['int', 'str']), build='ctor', shuf=rnd.choice([None, rnd.randrange(1 << 30)])))
     # histories (spec -> code): behaviours generated by TLC from Digraph.tla, replayed on the real objects
     sim = graphfam.simulate(ctx, 'MC_Digraph.tla', 'Digraph_sim.cfg', 400 if q else 8000, 10, ctx.seed + 1)
     for calls in sim:
@@ -90,7 +115,7 @@ def run(ctx):
             else:
                 calls.append({'op': 'add_node', 'v': rnd.randrange(n + 1), 'g': 1})
         calls.append({'op': 'sccs', 'g': 1})
-        behs.append({'calls': calls, 'family': 'scc/mutation history', 'naming': rnd.choice(['int', 'str', 'tuple']), 'shuf': rnd.randrange(1 << 30)})
+        behs.append({'calls': calls, 'family': 'scc/mutation history', 'naming': rnd.choice(['int', 'str', 'tuple', 'obj']), 'shuf': rnd.randrange(1 << 30)})
     for b in behs:
         c0 = b['calls'][0]
         if len(c0.get('E', [])) >= 2:
@@ -105,7 +130,7 @@ def run(ctx):
     sched = []
     for t in range(300 if q else 5000):
         n = rnd.randint(1, 9)
-        sched.append({'trace': t, 'n': n, 'E': gen.rand_digraph(rnd, n), 'naming': rnd.choice(['int', 'str', 'tuple']), 'shuf': rnd.randrange(1 << 30)})
+        sched.append({'trace': t, 'n': n, 'E': gen.rand_digraph(rnd, n), 'naming': rnd.choice(['int', 'str', 'tuple', 'obj']), 'shuf': rnd.randrange(1 << 30)})
     sev = []
     for evs in pmap(graphfam.scc_schedule_events, sched):
         for e in evs:
